@@ -29,6 +29,7 @@ def utf8_cases(rng, n):
 
 class C01(Check):
     ID = 'C01'
+    CASE_TIMEOUT = 120
     PROPS_MODULE = 'NcVerif.Props.C01'
     RULE = ('message lists (ASCII / 2-,3-,4-byte UTF-8 / whitespace-wrapped / containing delimiter look-alikes; up to multi-read size) '
             'encoded as a server would (1.0: end-of-message; 1.1: random chunkings down to single octets) and cut into transport reads '
@@ -53,6 +54,15 @@ class C01(Check):
         for i in range(n):
             out.append(G.gen_valid_case(rng, big=(i % 9 == 0)))
         out += utf8_cases(rng, 300 if tier == 'quick' else 5000)
+        # the read loop and the three real read primitives: frames of exactly k * BUF_SIZE octets (and their neighbours), then silence
+        B = 4096
+        for tr in ('unix', 'tls', 'ssh'):
+            for b11 in (False, True):
+                if tier == 'quick' and tr != 'unix' and b11 != (tr == 'tls'):
+                    continue
+                caps = None if b11 else ['urn:ietf:params:netconf:base:1.0', 'urn:ietf:params:netconf:capability:notification:1.0']
+                out.append({'kind': 'sock', 'sc': {'transport': tr, 'profile': 'default', 'server_caps': caps,
+                                                   'sizes': [B - 1, B, B + 1, 2 * B, 3 * B - 1, 3 * B] + ([rng.randint(300, 5 * B)] if tier == 'thorough' else [])}})
         return out
 
     def run_impl(self, case):
@@ -64,10 +74,15 @@ class C01(Check):
                 return {'text': None}
         if k == 'strip':
             return {'text': case['s'].strip()}
+        if k == 'sock':
+            from impl.e2e import run_sized_frames
+            return run_sized_frames(case['sc'])
         return F.run_feed_impl(case)
 
     def model_lines(self, case):
         k = case.get('kind')
+        if k == 'sock':
+            return []
         if k == 'utf8':
             return ['fr utf8 b' + case['bytes']]
         if k == 'strip':
@@ -81,6 +96,20 @@ class C01(Check):
         return F.parse_feed_out(outs[0])
 
     def oracle(self, case, io):
+        if case.get('kind') == 'sock':
+            sc = case['sc']
+            tag = '%s/%s' % (sc['transport'], '1.1' if io.get('base11') else '1.0')
+            if io['connect'] != 'ok':
+                return ('C01:sock-connect', 'connect over %s failed: %s' % (tag, io['connect']))
+            for i, g in enumerate(io['got']):
+                if g['text'] is None:
+                    return ('C01:message-not-delivered@' + sc['transport'], '%s: a complete message of %d framed octets, followed by silence, was not delivered within %.1fs'
+                            % (tag, io['framed'][i], g['dt']))
+                if g['text'].strip() != io['want'][i].strip():
+                    return ('C01:wrong-delivery@' + sc['transport'], '%s: message of %d framed octets arrived altered' % (tag, io['framed'][i]))
+            if len(io['got']) != len(io['sizes']) or not io.get('connected'):
+                return ('C01:session-died@' + sc['transport'], '%s: session ended while receiving valid messages' % tag)
+            return None
         if case.get('kind'):
             return None
         want = [m if case['base11'] else m.strip() for m in case['msgs']]
@@ -94,6 +123,8 @@ class C01(Check):
         return None
 
     def nontrivial(self, case, io):
+        if case.get('kind') == 'sock':
+            return io.get('connect') == 'ok'
         if case.get('kind'):
             return False
         return len(case['msgs']) >= 1 and (len(case['segs']) >= 2 or (case['chunks'] and any(len(c) >= 2 for c in case['chunks'])))
